@@ -136,30 +136,44 @@ pub fn server_config(cfg: &Cfg) -> ServerConfig {
     ServerConfig { snapshot_days: cfg.snapshot_days, snapshot_versions: cfg.snapshot_versions }
 }
 
+/// What a factory builds: the storage handed to the server (possibly wrapped by the harness) and
+/// the plain backend underneath it, which the harness uses for its own probes and dumps.
+#[derive(Clone)]
+pub struct Stores {
+    pub served: Arc<dyn Storage>,
+    pub probe: Arc<dyn Storage>,
+}
+
+impl Stores {
+    pub fn plain(s: Arc<dyn Storage>) -> Stores {
+        Stores { served: s.clone(), probe: s }
+    }
+}
+
 /// Builds the storage stack; called at construction and on every reopen.
-pub type StorageFactory = Box<dyn Fn() -> anyhow::Result<Arc<dyn Storage>> + Send>;
+pub type StorageFactory = Box<dyn Fn() -> anyhow::Result<Stores> + Send>;
 
 pub fn mem_factory() -> StorageFactory {
     // "reopen" keeps the same object: an in-memory store has nothing to reopen
     let st: Arc<dyn Storage> = Arc::new(InMemoryStorage::new());
-    Box::new(move || Ok(st.clone()))
+    Box::new(move || Ok(Stores::plain(st.clone())))
 }
 
 pub fn sqlite_factory(dir: PathBuf) -> StorageFactory {
-    Box::new(move || Ok(Arc::new(SqliteStorage::new(&dir)?) as Arc<dyn Storage>))
+    Box::new(move || Ok(Stores::plain(Arc::new(SqliteStorage::new(&dir)?) as Arc<dyn Storage>)))
 }
 
 // ---------------------------------------------------------------------------------------------
 // HTTP in process
 
-#[derive(Clone, Debug, serde::Serialize, serde::Deserialize, PartialEq, Eq, Hash)]
+#[derive(Clone, Debug, PartialEq, Eq)]
 pub struct HttpReq {
     pub method: String,
     pub path: String,
     /// header values as bytes (obs-text allowed)
     pub headers: Vec<(String, Vec<u8>)>,
     /// empty = no payload at all
-    pub chunks: Vec<Vec<u8>>,
+    pub chunks: Vec<bytes::Bytes>,
 }
 
 #[derive(Clone, Debug, Default)]
@@ -219,7 +233,7 @@ pub fn build_request(r: &HttpReq) -> actix_http::Request {
         req
     } else {
         let chunks: Vec<Result<bytes::Bytes, actix_http::error::PayloadError>> =
-            r.chunks.iter().map(|c| Ok(bytes::Bytes::from(c.clone()))).collect();
+            r.chunks.iter().map(|c| Ok(c.clone())).collect();
         let stream: actix_http::BoxedPayloadStream = Box::pin(futures::stream::iter(chunks));
         let (req, _) = req.replace_payload(actix_http::Payload::Stream { payload: stream });
         req
@@ -335,7 +349,7 @@ impl Drop for HttpHandle {
 pub const CT_HS: &str = "application/vnd.taskchampion.history-segment";
 pub const CT_SNAP: &str = "application/vnd.taskchampion.snapshot";
 
-pub fn req_add_version(c: Uuid, parent: Uuid, chunks: Vec<Vec<u8>>) -> HttpReq {
+pub fn req_add_version(c: Uuid, parent: Uuid, chunks: Vec<bytes::Bytes>) -> HttpReq {
     HttpReq {
         method: "POST".into(),
         path: format!("/v1/client/add-version/{parent}"),
@@ -354,7 +368,7 @@ pub fn req_get_child(c: Uuid, parent: Uuid) -> HttpReq {
         chunks: vec![],
     }
 }
-pub fn req_add_snapshot(c: Uuid, v: Uuid, chunks: Vec<Vec<u8>>) -> HttpReq {
+pub fn req_add_snapshot(c: Uuid, v: Uuid, chunks: Vec<bytes::Bytes>) -> HttpReq {
     HttpReq {
         method: "POST".into(),
         path: format!("/v1/client/add-snapshot/{v}"),
@@ -389,6 +403,33 @@ fn parse_uuid_header(r: &HttpResp, name: &str) -> Result<Uuid, String> {
     }
     let s = std::str::from_utf8(all[0]).map_err(|_| format!("{name} not text"))?;
     Uuid::parse_str(s).map_err(|_| format!("{name} not an id: {s:?}"))
+}
+
+/// Cut `data` into chunks of the given sizes, applied cyclically (0 = an empty chunk).  An empty
+/// or all-zero size list means one chunk.
+pub fn cut(data: &bytes::Bytes, sizes: &[u32]) -> Vec<bytes::Bytes> {
+    if sizes.iter().all(|s| *s == 0) {
+        return vec![data.clone()];
+    }
+    let mut out = vec![];
+    let mut pos = 0usize;
+    let mut i = 0usize;
+    while pos < data.len() {
+        let s = sizes[i % sizes.len()] as usize;
+        i += 1;
+        let end = (pos + s).min(data.len());
+        out.push(data.slice(pos..end));
+        pos = end;
+        if out.len() > 4_000_000 {
+            out.push(data.slice(pos..));
+            break;
+        }
+    }
+    // trailing empty chunks, if the pattern has them next
+    if sizes[i % sizes.len()] == 0 {
+        out.push(bytes::Bytes::new());
+    }
+    out
 }
 
 /// Lenient decoding of a response into a protocol outcome (the strict table is C14's business).
@@ -452,12 +493,15 @@ pub struct Driver {
     pub cfg: Cfg,
     pub allow: Option<HashSet<Uuid>>,
     factory: StorageFactory,
+    /// the plain backend, for the harness's own probes and dumps
     pub storage: Arc<dyn Storage>,
+    /// what the server is given (the same object unless a wrapper is in place)
+    pub served: Arc<dyn Storage>,
     pub dir: Option<TempDir>,
     server: Option<Server>,
     http: Option<HttpHandle>,
     /// how body bytes are cut into chunks for Http (None = one chunk)
-    pub chunker: Option<Box<dyn FnMut(&[u8]) -> Vec<Vec<u8>> + Send>>,
+    pub chunker: Option<Box<dyn FnMut(&[u8]) -> Vec<bytes::Bytes> + Send>>,
     /// every raw HTTP exchange, if wanted (C14/C20)
     pub http_log: Option<Vec<(HttpReq, HttpResp)>>,
     pub reopens: u32,
@@ -483,14 +527,15 @@ impl Driver {
         factory: StorageFactory,
         dir: Option<TempDir>,
     ) -> anyhow::Result<Driver> {
-        let storage = factory()?;
+        let stores = factory()?;
         let mut d = Driver {
             backend,
             via,
             cfg: cfg.clone(),
             allow,
             factory,
-            storage,
+            storage: stores.probe,
+            served: stores.served,
             dir,
             server: None,
             http: None,
@@ -505,13 +550,13 @@ impl Driver {
     fn build(&mut self) {
         match self.via {
             Via::Lib => {
-                self.server = Some(Server::new(server_config(&self.cfg), ArcStorage(self.storage.clone())));
+                self.server = Some(Server::new(server_config(&self.cfg), ArcStorage(self.served.clone())));
             }
             Via::Http => {
                 let ws = WebServer::new(
                     server_config(&self.cfg),
                     self.allow.clone(),
-                    ArcStorage(self.storage.clone()),
+                    ArcStorage(self.served.clone()),
                 );
                 match &self.http {
                     Some(h) => h.rebuild(ws),
@@ -531,7 +576,9 @@ impl Driver {
         self.server = None;
         // the Http service keeps an Arc to the old storage until rebuilt; SqliteStorage holds no
         // connection between transactions, so nothing is pinned
-        self.storage = (self.factory)()?;
+        let stores = (self.factory)()?;
+        self.storage = stores.probe;
+        self.served = stores.served;
         self.build();
         self.reopens += 1;
         Ok(())
@@ -545,10 +592,10 @@ impl Driver {
         self.build();
     }
 
-    fn chunks(&mut self, data: &[u8]) -> Vec<Vec<u8>> {
+    fn chunks(&mut self, data: &[u8]) -> Vec<bytes::Bytes> {
         match &mut self.chunker {
             Some(f) => f(data),
-            None => vec![data.to_vec()],
+            None => vec![bytes::Bytes::copy_from_slice(data)],
         }
     }
 
